@@ -331,26 +331,52 @@ EXT_THRESHOLD = F(1, 1000)
 
 
 def reseat_features(ch):
-    """Mechanism features of a reseat input (for known-finding matching and
-    evidence): the smallest measure / beat remainder of any interval."""
+    """Mechanism features of a reseat input (known-finding matching, evidence).
+
+    The algorithm measures every original interval from a measure line (the
+    previous point has just been seated), so its two "extend" branches are
+    entered iff the interval length, in measures or in beats, has a remainder
+    in (0, extend_threshold].  Remainders below 1e-9 are float noise of a
+    whole number and are not the feature."""
     T = rt.RefTiming(0, ch)
     near = False
     for i in range(len(T.ch) - 1):
         m0, b0, v0, t0 = T.ch[i]
         beats = T.abs[i + 1] - T.abs[i]
-        # remainders as the algorithm sees them depend on where the previous
-        # point was reseated to; approximate by every phase: flag when the
-        # interval, measured from a measure line, ends within the threshold
-        # after a measure or beat line.
-        for base in (F(0), b0):
-            tot = base + beats
-            mr = (tot / t0) % 1
-            br = tot % 1
-            if 0 < mr <= EXT_THRESHOLD * 2 or 0 < br <= EXT_THRESHOLD * 2:
-                near = True
+        mr = (beats / t0) % 1
+        br = beats % 1
+        lo, hi = F(1, 10**9), EXT_THRESHOLD * (1 + F(1, 10**6))
+        if lo < mr <= hi or lo < br <= hi:
+            near = True
     return dict(near_line_remainder=near, n_changes=len(ch),
                 seated=all(c[1] == 0 for c in ch),
-                const_metronome=len({c[3] for c in ch}) == 1)
+                const_metronome=len({c[3] for c in ch}) == 1,
+                pow2_metronome=all(c[3] in (1, 2, 4, 8) for c in ch))
+
+
+def same_timeline(pa, pb):
+    """Step functions [(ms, bpm)] equal as 'which bpm is active when':
+    compared at the midpoints of the union of breakpoints (1e-6 ms apart at
+    least), bpm relative 1e-9."""
+    pa = sorted(pa, key=lambda p: p[0])
+    pb = sorted(pb, key=lambda p: p[0])
+    if not pa or not pb or not ms_close(pa[0][0], pb[0][0]):
+        return False
+    cuts = sorted({p[0] for p in pa} | {p[0] for p in pb})
+    uniq = []
+    for c in cuts:
+        if not uniq or not ms_close(uniq[-1], c):
+            uniq.append(c)
+    probes = [(a + b) / 2 for a, b in zip(uniq, uniq[1:])] + [uniq[-1] + 1000]
+
+    def at(pts, t):
+        v = pts[0][1]
+        for ms, b in pts:
+            if ms <= t:
+                v = b
+        return v
+
+    return all(rt.close(at(pa, t), at(pb, t), 0, 1e-9) for t in probes)
 
 
 def judge_reseat_common(ctx, mon, ch_in, exc, out, initial, out_is_offsets):
@@ -418,10 +444,9 @@ def judge_reseat_common(ctx, mon, ch_in, exc, out, initial, out_is_offsets):
                                f"{len(inside)} inserted points between original changes {i} and {i + 1}", wit, feat)
     # (5) seated input: timeline unchanged
     if feat["seated"]:
-        a = rt.step_bpm(list(zip(Tin.ms, [c[2] for c in Tin.ch])))
-        b = rt.step_bpm(list(zip(out_ms, out_bpm)))
-        same = len(a) == len(b) and all(ms_close(x[0], y[0]) and rt.close(x[1], y[1], 0, 1e-9) for x, y in zip(a, b))
-        if not same:
+        a = list(zip(Tin.ms, [c[2] for c in Tin.ch]))
+        b = list(zip(out_ms, out_bpm))
+        if not same_timeline(a, b):
             return ctx.violate("C11", mon, "seated_unchanged",
                                f"seated list changed: {[(float(x), float(y)) for x, y in a][:6]} -> {[(float(x), float(y)) for x, y in b][:6]}", wit, feat)
         ctx.held(mon, "seated_unchanged")
